@@ -10,6 +10,7 @@ any configured limit.  Constants come from `Uquic.Gen.Protocol` (regenerated fro
 import Uquic.Proofs.StreamsIncomingRun
 import Uquic.Proofs.StreamsOutgoingRun
 import Uquic.Proofs.StreamsMap
+import Uquic.Proofs.StreamsMapLift
 import Uquic.Generated.Streams
 
 namespace Uquic.Props.C15
@@ -304,6 +305,53 @@ example :
       (fun m o => (m.step o).1) m0
     (m1.quiesce 100).2.1 = [(1, .err .rejected0RTT), (2, .err .rejected0RTT), (3, .err .rejected0RTT)] ∧
     ((m1.quiesce 100).1.outBidi.nextStream, (m1.quiesce 100).1.outBidi.procs) = (m0.outBidi.nextStream, []) := by decide
+
+/-! ## the whole `streamsMap`, both perspectives -/
+
+/-- run a list of map operations -/
+def runMap (m : Map) (ops : List MapOp) : Map := ops.foldl (fun m o => (m.step o).1) m
+
+/-- **map_submaps_reachable.**  After any history of `streamsMap` operations (peer frames with
+    arbitrary non-negative ids, local calls and their internal steps, deletions, MAX_STREAMS, transport
+    parameters, close, ResetFor0RTT, UseResetMaps), for either perspective, each of the four current
+    sub-maps is a reachable state of its own transition system — so every sub-map theorem above holds
+    of it. -/
+theorem map_submaps_reachable (pers : Persp) (nb nu : Int) (ops : List MapOp) (hw : ∀ op ∈ ops, op.wf) :
+    ∀ t, (∃ os : List OutOp, (∀ o ∈ os, o.wf) ∧
+            (runMap (Map.new pers nb nu) ops).out t = ((Outgoing.new t pers).run os).1) ∧
+         (∃ is : List InOp, (∀ o ∈ is, o.wf (firstIncoming t pers)) ∧
+            (runMap (Map.new pers nb nu) ops).inc t = ((Incoming.new t (limOf nb nu t) pers).run is).1) := by
+  intro t
+  have h := reach_run pers nb nu ops _ (reach_new pers nb nu) hw
+  exact ⟨h.out t, h.inc t⟩
+
+/-- the concurrency bound for the whole map: for both perspectives and both stream types, the peer
+    never holds more open incoming streams than the configured limit, and STREAM_LIMIT_ERROR is raised
+    exactly above the advertised maximum -/
+theorem map_incoming_bounded (pers : Persp) (nb nu : Int) (hnb : 0 ≤ nb) (hnu : 0 ≤ nu) (ops : List MapOp)
+    (hw : ∀ op ∈ ops, op.wf) (t : STyp) :
+    ((runMap (Map.new pers nb nu) ops).inc t).dead = false →
+      ((((runMap (Map.new pers nb nu) ops).inc t).streams.length : Int) ≤ limOf nb nu t ∧
+       ∀ id, (((runMap (Map.new pers nb nu) ops).inc t).getOrOpen id).2 = .err .limit ↔
+          id > ((runMap (Map.new pers nb nu) ops).inc t).maxStream) := by
+  intro hd
+  obtain ⟨_, is, his, he⟩ := map_submaps_reachable pers nb nu ops hw t
+  have hl : 0 ≤ limOf nb nu t := by cases t <;> simpa [limOf]
+  have := incoming_bounded t pers (limOf nb nu t) hl is his
+  simp only at this
+  rw [he] at hd ⊢
+  have h := this hd
+  exact ⟨h.2.1, h.2.2.2⟩
+
+/-- the FIFO / no-lost-wake-up invariant for the whole map -/
+theorem map_outgoing_fifo (pers : Persp) (nb nu : Int) (ops : List MapOp) (hw : ∀ op ∈ ops, op.wf) (t : STyp) :
+    FifoInv ((runMap (Map.new pers nb nu) ops).out t) ∧ ∃ k, IdInv ((runMap (Map.new pers nb nu) ops).out t) k := by
+  obtain ⟨⟨os, hos, he⟩, _⟩ := map_submaps_reachable pers nb nu ops hw t
+  rw [he]
+  have := outgoing_reachable_inv t pers os hos
+  exact ⟨this.1, this.2.1⟩
+
+example : ((runMap (Map.new .server 1 1) [.recvFrame 0, .recvFrame 4]).inc .bidi).streams.length = 1 := by decide
 
 /-! ## shape of the Go code the atomic-step modelling relies on -/
 
